@@ -15,12 +15,15 @@ ENTRY = dict(
             "address has no device class; `addresses_do_not_interfere` (no object serves two addresses), `single_device`, "
             "`entry_is_stable` + `same_object_at_every_time` (an entry is never replaced; callers at two different moments agree), "
             "`always_handleable` (every unfinished consumer can finish within five moves from every reachable state), "
-            "`unlocked_counterexample` (the same machine without the lock creates two devices for one address). Replay: `replay_is_run` "
+            "`unlocked_counterexample` (the same machine without the lock creates two devices for one address); "
+            "`single_device_across_reconnects` / `reconnect_preserves_invariant` (the connection may be lost and re-established at any point "
+            "of the timeline, also while a class loading is in flight: lock, device map and in-flight loads survive, every conclusion "
+            "holds), `fresh_lock_counterexample` (a fresh lock per connection gives two devices). Replay: `replay_is_run` "
             "(every state of the driver's replay is a machine state under the recorded schedule, and quiescent), `holds` (every "
             "snapshot satisfies C10.snapOk) and `final_ok` (a COMPLETE schedule — accepted, every settle at a fixpoint, nothing held — "
             "ends in a snapshot satisfying C10.finalOk: every frame handled or, without a device class, dropped; every get() for an "
             "address with an entry returned). The machine is tied to protocol.py by trace inclusion: schedules of feed/release/get "
-            "events over the addresses 69, 81 and 86 (no device class) are run on a real AsyncProtocol (real StreamReader, real "
+            "and reconnect events over the addresses 69, 81 and 86 (no device class) are run on a real AsyncProtocol (real StreamReader, real "
             "Lock/Queue/Event, held run_in_executor) and replayed by the driver; snapshots must be equal and C10.spec is judged by the "
             "driver on the implementation's snapshots."),
         level_note="Trusted: Lean kernel; asyncio.Lock is mutual exclusion with FIFO wake-up, Event/Queue as documented; the machine <-> protocol.py "
@@ -34,6 +37,7 @@ ENTRY = dict(
             "every frame is handled by that object": "theorem (per_address_single_device safety; always_handleable progress; final_ok: complete schedules leave no frame unhandled) + correspondence",
             "class loading that raises (no device class): frame dropped, lock released, nothing published": "theorem (per_address_single_device, always_handleable) + correspondence (frames from ECONET 86)",
             "the model distinguishes locked from unlocked code": "theorem (unlocked_counterexample)",
+            "for the lifetime of the protocol object, across reconnects at any point of the timeline": "theorem (single_device_across_reconnects, reconnect_preserves_invariant; fresh_lock_counterexample) + correspondence (end of stream on the current reader, connection re-established from an on_connection_lost callback, at every position incl. while the import is held)",
             "the machine describes protocol.py / asyncio.Lock is mutual exclusion": "correspondence (trace inclusion on enumerated schedules)",
         },
         assumptions=COMMON_ASSUME + [
